@@ -805,22 +805,26 @@ func (r *envelopingReader) Read(data []byte) (n int, err error) {
 	if r.err != nil {
 		return 0, r.err
 	}
-	if r.current != nil {
-		bytesRead, err := r.current.Read(data)
-		isEOF := errors.Is(err, io.EOF)
-		if bytesRead > 0 && (err == nil || isEOF) {
-			return bytesRead, nil
+	if r.envRemain == 0 {
+		// Only read message data (or move on to the next message) once
+		// the current envelope has been completely handed out.
+		if r.current != nil {
+			bytesRead, err := r.current.Read(data)
+			isEOF := errors.Is(err, io.EOF)
+			if bytesRead > 0 && (err == nil || isEOF) {
+				return bytesRead, nil
+			}
+			if err != nil && !isEOF {
+				r.err = err
+				return bytesRead, err
+			}
+			// otherwise EOF, fall through
 		}
-		if err != nil && !isEOF {
-			r.err = err
-			return bytesRead, err
-		}
-		// otherwise EOF, fall through
-	}
 
-	if err := r.prepareNext(); err != nil {
-		r.err = err
-		return 0, err
+		if err := r.prepareNext(); err != nil {
+			r.err = err
+			return 0, err
+		}
 	}
 
 	if len(data) < r.envRemain {
